@@ -1191,6 +1191,13 @@ fn writer_ext_w(rng: &mut Rng, out: &mut Out) {
     };
     let special = [0usize, 1, 9, 10, 99, 100, 4294967295, 4294967296, usize::MAX, usize::MAX - 1, 1000000007];
     let mut labels: Vec<usize> = Vec::new();
+    // rarely: a long extension, so that the written line crosses the usual buffer sizes (4 KiB, 8 KiB, 64 KiB)
+    if rng.chance(1, 120) {
+        let big = [900usize, 1900, 2600, 14000][rng.below(4)] + rng.below(60);
+        labels = (1..=big).collect();
+        rng.shuffle(&mut labels);
+    }
+    let k = if labels.is_empty() { k } else { labels.len() };
     while labels.len() < k {
         let l = match rng.below(3) {
             0 => special[rng.below(special.len())],
@@ -1230,6 +1237,13 @@ fn writer_ext_bracket(rng: &mut Rng, out: &mut Out) {
         _ => rng.range(2, 8),
     };
     let mut labels: Vec<String> = Vec::new();
+    // rarely: a long extension (see writer_ext_w)
+    if rng.chance(1, 120) {
+        let big = [900usize, 1900, 2600, 14000][rng.below(4)] + rng.below(60);
+        labels = (1..=big).map(|i| format!("a{}", i)).collect();
+        rng.shuffle(&mut labels);
+    }
+    let k = if labels.is_empty() { k } else { labels.len() };
     while labels.len() < k {
         let l = gen_ident_p(rng, 1, 3);
         if !labels.contains(&l) {
